@@ -4,6 +4,7 @@ import (
 	"fmt"
 	"go/token"
 	"go/types"
+	"os"
 	"sort"
 	"strings"
 
@@ -85,7 +86,7 @@ var purePkgs = map[string]bool{
 	"k8s.io/apimachinery/pkg/util/errors": true, "k8s.io/apimachinery/pkg/fields": true,
 	"k8s.io/apimachinery/pkg/api/validation": true, "k8s.io/apimachinery/pkg/apis/meta/v1/validation": true,
 	"k8s.io/apimachinery/pkg/api/meta": true,
-	"encoding/base64": true, "hash/fnv": true, "crypto/sha256": true, "encoding/hex": true, "hash": true,
+	"encoding/base64":                  true, "hash/fnv": true, "crypto/sha256": true, "encoding/hex": true, "hash": true,
 	"sigs.k8s.io/controller-runtime/pkg/controller/controllerutil": false,
 	"github.com/davecgh/go-spew/spew":                              true,
 	"github.com/yuin/gopher-lua":                                   true, // interpreter state only; data crosses as JSON strings
@@ -93,7 +94,7 @@ var purePkgs = map[string]bool{
 	"k8s.io/apimachinery/pkg/util/json":                            false,
 	"sigs.k8s.io/controller-runtime/pkg/log":                       true,
 	"github.com/go-logr/logr":                                      true,
-	"flag": true, "os": true, "sync": true, "sync/atomic": true, "context": true,
+	"flag":                                                         true, "os": true, "sync": true, "sync/atomic": true, "context": true,
 	"k8s.io/client-go/tools/record": true, "k8s.io/client-go/util/workqueue": true,
 	"k8s.io/apimachinery/pkg/util/wait": false,
 }
@@ -105,7 +106,7 @@ var pureFuncs = map[string]bool{
 	"k8s.io/apimachinery/pkg/apis/meta/v1.GetControllerOf": true, "k8s.io/apimachinery/pkg/apis/meta/v1.GetControllerOfNoCopy": true,
 	"k8s.io/apimachinery/pkg/apis/meta/v1.IsControlledBy": true, "k8s.io/apimachinery/pkg/apis/meta/v1.NewControllerRef": true,
 	"k8s.io/apimachinery/pkg/apis/meta/v1.LabelSelectorAsSelector": true, "k8s.io/apimachinery/pkg/apis/meta/v1.HasAnnotation": true,
-	"k8s.io/apimachinery/pkg/apis/meta/v1.FormatLabelSelector": true,
+	"k8s.io/apimachinery/pkg/apis/meta/v1.FormatLabelSelector":                       true,
 	"sigs.k8s.io/controller-runtime/pkg/controller/controllerutil.ContainsFinalizer": true,
 	"sigs.k8s.io/controller-runtime/pkg/client.IgnoreNotFound":                       true,
 	"sigs.k8s.io/controller-runtime/pkg/client.MergeFrom":                            true,
@@ -1083,7 +1084,20 @@ func (fc *FnCtx) applyContract(st *State, in ssa.Instruction, c *ssa.CallCommon,
 		}
 		st.ghost[k] = t
 	}
+	// a frame clause of the callee is compiled into the havoc itself (no quantified assumption)
+	compiled := map[*Clause]bool{}
 	for _, e := range con.Ensures {
+		if e.Expr.Op == "call" && e.Expr.Name == "unchangedOutside" && os.Getenv("GOVC_NOFRAMECOMPILE") == "" {
+			if fc.compileFrame(post, e.Expr, append([]string(nil), post.frameArrs...)) {
+				compiled[e] = true
+			}
+			break
+		}
+	}
+	for _, e := range con.Ensures {
+		if compiled[e] {
+			continue
+		}
 		if fc.g.hasGhostDeep(e.Expr, con.PkgPath, 0) && !(override != nil && ghostsWithin(e.Expr, "#"+con.Invokes)) {
 			continue // speaks about the callee's own call log
 		}
@@ -1272,7 +1286,13 @@ func (fc *FnCtx) execAppend(st *State, in ssa.Instruction, c *ssa.CallCommon, ar
 		}
 		lam := fmt.Sprintf("(lambda ((ar Ref)) (ite %s %s %s))", inPlaceCond, inplace, fresh)
 		// a definition (inlined by the solver) rather than an equality between arrays
-		nv := fc.q.define(l.arr+"@app", fc.g.arrSort[l.arr], lam)
+		var nv string
+		if os.Getenv("GOVC_APPEND_EQ") != "" {
+			nv = fc.q.freshConst(l.arr+"@app", fc.g.arrSort[l.arr])
+			fc.q.assert(implies(st.reach, eq(nv, lam)))
+		} else {
+			nv = fc.q.define(l.arr+"@app", fc.g.arrSort[l.arr], lam)
+		}
 		st.heap[l.arr] = nv
 		st.bounds[l.arr] = st.alloc()
 	}
